@@ -211,8 +211,9 @@ impl<T: Qcow2IoOps> Qcow2Dev<T> {
                 return Err("read_at eof".into());
             } else {
                 // the top device is asking for read, which is usually
-                // caused by top device resize, so simply fake we provide
-                // data requested
+                // caused by top device resize, the part beyond the end of
+                // backing image reads as zeros
+                zero_buf!(buf);
                 return Ok(buf.len());
             }
         }
@@ -250,6 +251,16 @@ impl<T: Qcow2IoOps> Qcow2Dev<T> {
         };
 
         debug_assert!((len & bs_mask) == 0);
+
+        // only the in-image part is read from this image; for one backing
+        // image, the part beyond its end reads as zeros
+        let (buf, tail) = buf.split_at_mut(len);
+        if extra != 0 {
+            zero_buf!(tail);
+        }
+        if len == 0 {
+            return Ok(extra);
+        }
 
         let done = if single {
             let l2_entry = self.get_l2_entry(offset).await?;
